@@ -1454,14 +1454,14 @@ theorem reduce_eq (p m : List K) (r : List K) (h : reduce FK E p m = some r) :
 /-- `fast_modular_coset_interpolate…with_zerofiers_and_ntt_friendly_multiple`, Lagrange arm and INTT-then-reduce arm
     (codeword length up to the INTT cut-off, **for every value of both cut-offs**): the coset interpolant modulo
     the modulus -/
-theorem fmciWith_sound_small (t : Thr) (hT : 2 ≤ t.zf) (values : List K) (offset : K) (modulus : List K) (pre : Pre K)
+theorem fmciWithFuel_sound_small (t : Thr) (hT : 2 ≤ t.zf) (fuel : Nat) (values : List K) (offset : K)
+    (modulus : List K) (pre : Pre K)
     (hpre : pre.modulus = modulus) (hoff : offset ≠ 0) (hsmall : values.length ≤ t.intt ∨ values.length < t.lag)
     (ω : K) (hω : root values.length = some ω)
     (hprim : ((List.range values.length).map (fun i => ω ^ i)).Nodup)
-    (r : List K) (h : fmciWith FK E t values offset modulus pre = some r) :
+    (r : List K) (h : fmciWithFuel FK E t (fuel + 1) values offset modulus pre = some r) :
     ∃ g : K[X], Interpolates (cosetDomain offset ω values.length) values g ∧
       denote r = g % denote modulus := by
-  unfold fmciWith at h
   rw [fmciWithFuel] at h
   split at h
   · simp at h
@@ -1499,6 +1499,15 @@ theorem fmciWith_sound_small (t : Thr) (hT : 2 ≤ t.zf) (values : List K) (offs
         rcases hsmall with h1 | h1
         · exact hintt h1
         · exact hlag h1
+
+theorem fmciWith_sound_small (t : Thr) (hT : 2 ≤ t.zf) (values : List K) (offset : K) (modulus : List K) (pre : Pre K)
+    (hpre : pre.modulus = modulus) (hoff : offset ≠ 0) (hsmall : values.length ≤ t.intt ∨ values.length < t.lag)
+    (ω : K) (hω : root values.length = some ω)
+    (hprim : ((List.range values.length).map (fun i => ω ^ i)).Nodup)
+    (r : List K) (h : fmciWith FK E t values offset modulus pre = some r) :
+    ∃ g : K[X], Interpolates (cosetDomain offset ω values.length) values g ∧
+      denote r = g % denote modulus :=
+  fmciWithFuel_sound_small root hN hE t hT _ values offset modulus pre hpre hoff hsmall ω hω hprim r h
 
 /-- `fast_coset_extrapolate`: modular interpolation by the zerofier of the points, then tree evaluation -/
 theorem fastCosetExtrapolate_sound (t : Thr) (hT : 2 ≤ t.zf) (offset : K) (codeword points : List K)
